@@ -16,7 +16,7 @@ HERE = os.path.dirname(os.path.abspath(__file__))
 VERIF = os.path.dirname(HERE)
 sys.path.insert(0, HERE)
 import wire, cases
-import props
+import props, kat
 
 LEAN = os.path.join(VERIF, "lean")
 HARNESS = os.path.join(VERIF, "harness")
@@ -302,7 +302,7 @@ def main():
         rp = json.load(open(replay))
         lines = rp.get("cases", [])
     else:
-        lines = load_corpus(pid) + P["gen"](rng, gen_tier)
+        lines = load_corpus(pid) + [k["case"] for k in kat.KATS.get(pid, [])] + P["gen"](rng, gen_tier)
     driver = os.path.join(LEAN, ".lake", "build", "bin", "driver")
     kf = known_findings(pid)
     extra = None
@@ -422,6 +422,10 @@ def main():
             if len(violations) < 50:
                 violations.append({"kind": "model/implementation disagreement", "config": cname, "case": c,
                                    "impl": a, "model": b, "detail": detail, "found_input": v == "hard"})
+        # kernel-anchored known answers (tools/kat.py): outputs the Lean kernel computed from the model at the SoftFloat scalar
+        for (c, msg) in kat.check(pid, lines, impl):
+            violations.append({"kind": "oracle: " + msg, "config": cname, "case": c, "found_input": True})
+        corr["kernel_anchored_known_answers"] = [k["theorem"] for k in kat.KATS.get(pid, []) if k["case"] in lines]
         # property-specific extra oracle on the implementation's own outputs (metamorphic / structural)
         if "oracle" in P:
             for (c, msg) in P["oracle"](lines, impl):
@@ -467,6 +471,7 @@ def main():
                                "hard": corr["hard"], "soft_within_tolerance": corr["soft"],
                                "accepted_property_conformant_alternatives": corr.get("accepted_alternatives", 0),
                                "tie_dependent_suffixes_skipped": corr.get("tie_dependent_suffixes_skipped", 0),
+                               "kernel_anchored_known_answers_reproduced_by_impl": corr.get("kernel_anchored_known_answers", []),
                                "informational_model_disagreements": corr.get("informational_model_disagreements", 0),
                                "drift_outside_owned_observables": corr["drift"],
                                "owned_observables": sorted(P["mask"]), "tolerance": P.get("tol")},
